@@ -178,11 +178,25 @@ async def server_side(net, hyg, plan):
                     except asyncio.TimeoutError:
                         pass
                 r1 = rng.random()
+                if plan.get("tail") is not None:
+                    tail = bytes.fromhex(plan["tail"])
+                    sent.append(tail)
+                    mon["hostile_lines"] += 1
+                    p.writer.write(tail)
+                    await asyncio.sleep(0.01)
+                    p.cut("fin")
+                    r1 = 2.0
                 if r1 < 0.35:
                     p.writer.write(mutate(rng, rng.choice(VALID_CMDS)))  # no line end before EOF
                 elif r1 < 0.65:
                     # blank / white-space-only lines (keep-alives of some clients) right before the end of the stream
                     tail = rng.choice([b"\r\n", b"\n", b" \r\n", b"\r\n\r\n", b"\t\n", b"   ", b"\r", b"\r\n \r\n\n"])
+                    sent.append(tail)
+                    mon["hostile_lines"] += 1
+                    p.writer.write(tail)
+                elif r1 < 0.85:
+                    # the stream ends inside a line and inside a multi-byte character
+                    tail = rng.choice([b"MKD caf\xe2\x82", b"USER \xf0\x9f", b"\xc3", b"CWD /dir/\xe3\x81", b"PASS \xf0\x9f\x98"])
                     sent.append(tail)
                     mon["hostile_lines"] += 1
                     p.writer.write(tail)
@@ -731,6 +745,10 @@ def gen_cases(tier, seed):
     for i in range(240 if tier == "quick" else 20000):
         cases.append({"kind": "server", "plan": {"seed": seed * 100003 + i, "lines": rng.choice([5, 20, 60]),
                                                  "bystander": names[i % len(names)] if i % 3 else None, "wft_none": i % 4 == 1}})
+    for i, tail in enumerate([b"MKD caf\xe2\x82", b"USER \xf0\x9f", b"\xc3", b"CWD /dir/\xe3\x81", b"PASS \xf0\x9f\x98", b"\r\n", b"NOOP\r\n\xe2"]):
+        for lines in (0, 2):
+            cases.append({"kind": "server", "plan": {"seed": seed * 31 + i * 4, "lines": lines, "tail": tail.hex(),
+                                                     "bystander": names[i % len(names)] if i % 2 else None, "wft_none": False}})
     for i in range(12 if tier == "quick" else 200):
         cases.append({"kind": "server", "plan": {"seed": seed * 977 + i, "lines": 3, "deep": True, "bystander": names[i % len(names)] if i % 2 else None,
                                                  "wft_none": False}})
